@@ -227,6 +227,8 @@ def run(ctx):
     finally:
         join()
 
+    if ctx.divergences:
+        vlib.log("DIVERGENCE property=%s total=%d (every Judge holds on these cases, the result differs from the Model; not a violation)" % (ctx.prop, ctx.divergences))
     ctx.exhaustive = True
     ctx.extra["enumerated_cases"] = total
     ctx.extra["random_cases"] = len(rc)
